@@ -681,6 +681,18 @@ class EColl(enum.Enum):
     text_true = "true"
 
 
+class ECross(enum.Enum):
+    """members whose VALUE is text that spells the NAME of another member (or of an Enum attribute): a by-name lookup
+    tried before the by-value lookup answers another member (seeded change C01-r6m1)"""
+    NORTH = "SOUTH"
+    SOUTH = "NORTH"
+    A = "B"
+    B = "C"
+    C = "name"
+    own = "own"
+    value = "NORTH "
+
+
 def gen_td(rng):
     days = rng.choice([0, 0, 1, 6, 7, 8, 14, 21, 365, 999999999, -1, -7, -8, -999999999, rng.randint(-1000, 1000),
                        7 * rng.randint(-10 ** 8, 10 ** 8)])
@@ -737,12 +749,13 @@ SCALARS = {
     EInt: lambda rng: rng.choice(list(EInt)), EStr: lambda rng: rng.choice(list(EStr)),
     ESMix: lambda rng: rng.choice(list(ESMix)), EIntEnum: lambda rng: rng.choice(list(EIntEnum)),
     EColl: lambda rng: rng.choice(list(EColl)),
+    ECross: lambda rng: rng.choice(list(ECross)),
 }
 LIT1 = typing.Literal[1, "a", "b"]
 LIT2 = typing.Literal["1", "null", None, True]
 LITS = {LIT1: [1, "a", "b"], LIT2: ["1", "null", None, True]}
 HASHABLE_SCALARS = [int, bool, float, str, decimal.Decimal, fractions.Fraction, uuid.UUID, pathlib.PurePosixPath, D.date,
-                    D.datetime, D.timedelta, EInt, EStr, ESMix, EIntEnum, EColl]
+                    D.datetime, D.timedelta, EInt, EStr, ESMix, EIntEnum, EColl, ECross]
 
 ADV_SRC = '''
 import typing, collections, dataclasses, datetime, decimal, enum, fractions, pathlib, uuid
@@ -811,6 +824,37 @@ class Slotted_:
     __hash__ = None
     def __repr__(self):
         return f"Slotted_({self.a!r}, {self.b!r})"
+
+@dataclasses.dataclass
+class Defaults:
+    name: str
+    retries: typing.Optional[int] = 3
+    ratio: typing.Optional[float] = 0.5
+    tags: typing.Optional[list[str]] = dataclasses.field(default_factory=lambda: ["t"])
+    flag: typing.Optional[bool] = True
+
+@dataclasses.dataclass(slots=True, frozen=True)
+class DefaultsSF:
+    name: str = "n"
+    when: typing.Optional[datetime.date] = datetime.date(2020, 1, 2)
+    amount: "decimal.Decimal | None" = decimal.Decimal("1.50")
+
+class NTDefaults(typing.NamedTuple):
+    a: int
+    b: typing.Optional[str] = "s"
+    c: typing.Optional[tuple[int, int]] = (1, 2)
+
+class PlainDefaults:
+    a: int
+    b: typing.Optional[int]
+    c: typing.Optional[str]
+    def __init__(self, a: int, b: typing.Optional[int] = 7, c: typing.Optional[str] = "c"):
+        self.a, self.b, self.c = a, b, c
+    def __eq__(self, o):
+        return type(o) is type(self) and vars(o) == vars(self)
+    __hash__ = None
+    def __repr__(self):
+        return f"PlainDefaults({self.a!r}, {self.b!r}, {self.c!r})"
 
 @dataclasses.dataclass
 class Node:
@@ -898,6 +942,7 @@ def keyword_text_cases():
         (L(EStr), list(EStr)),
         (L(ESMix), list(ESMix)),
         (L(EColl), list(EColl)),
+        (L(ECross), list(ECross)),
     ]
     out = []
     for leaf, values in leaves:
@@ -1178,6 +1223,25 @@ def adv_class_cases(rng, n_each):
     ann_ = cls(m.Annotated_, "plain", {"a": L(int), "b": ("map", dict[str, float], dict, L(str), L(float))})
     slt = cls(m.Slotted_, "plain", {"a": L(str), "b": opt(L(int))})
     S = SCALARS
+    # fields whose declared default is NOT None, holding None / falsy values / the default itself (seeded change C01-r6m2:
+    #  an explicit null for a defaulted field read as "not given")
+    dflt = cls(m.Defaults, "dataclass", {"name": L(str), "retries": opt(L(int)), "ratio": opt(L(float)),
+                                         "tags": opt(lst(L(str))), "flag": opt(L(bool))})
+    dsf = cls(m.DefaultsSF, "dataclass", {"name": L(str), "when": opt(L(D.date)), "amount": opt(L(decimal.Decimal))})
+    ntd = cls(m.NTDefaults, "namedtuple", {"a": L(int), "b": opt(L(str)), "c": opt(("tuple", tuple[int, int], [L(int), L(int)]))})
+    pld = cls(m.PlainDefaults, "plain", {"a": L(int), "b": opt(L(int)), "c": opt(L(str))})
+    pick = lambda *xs: rng.choice(xs)
+    for _ in range(max(2, n_each)):
+        out.append((dflt, m.Defaults(S[str](rng), pick(None, 0, 3, S[int](rng)), pick(None, 0.0, 0.5), pick(None, [], ["t"], ["u", "v"]),
+                                     pick(None, False, True))))
+        out.append((dflt, m.Defaults("n", None, None, None, None)))
+        out.append((dsf, m.DefaultsSF(pick("", "n", "x"), pick(None, gen_date(rng)), pick(None, decimal.Decimal("0"), S[decimal.Decimal](rng)))))
+        out.append((dsf, m.DefaultsSF("n", None, None)))
+        out.append((ntd, m.NTDefaults(S[int](rng), pick(None, "", "s", "null"), pick(None, (0, 0), (1, 2)))))
+        out.append((ntd, m.NTDefaults(0, None, None)))
+        out.append((pld, m.PlainDefaults(S[int](rng), pick(None, 0, 7), pick(None, "", "c", "None"))))
+        out.append((pld, m.PlainDefaults(1, None, None)))
+        out.append((lst(dflt), [m.Defaults("a", None, 0.0, [], False), m.Defaults("b", 1, None, None, None)]))
     for _ in range(n_each):
         out.append((plain, m.Plain(S[int](rng), S[str](rng), rng.choice([None, S[decimal.Decimal](rng)]))))
         out.append((slots, m.Slots(gen_date(rng), (S[int](rng), S[str](rng)))))
@@ -1439,7 +1503,7 @@ def eval_case(c):
     m = adv_module()
     ns = dict(m.__dict__)
     ns.update({"re": re, "D": D, "EInt": EInt, "EStr": EStr, "ESMix": ESMix, "EIntEnum": EIntEnum, "LIT1": LIT1, "LIT2": LIT2,
-               "EKw": EKw, "LITKW": LITKW, "EColl": EColl})
+               "EKw": EKw, "LITKW": LITKW, "EColl": EColl, "ECross": ECross})
     ann = eval(c["type"], ns)
     v = eval(c["value"], ns)
     return ann, spec_of_ann(ann), v
@@ -1591,7 +1655,7 @@ def search(run: lib.Run, broken):
         push(check_value(ann_of(spec), spec, v, stats, {"source": "python-level-generator"}))
     # every scalar x every string that reads like another scalar, in two-member unions (both orders)
     scal = [int, float, str, decimal.Decimal, fractions.Fraction, uuid.UUID, pathlib.PurePosixPath, D.date, D.datetime,
-            D.time, D.timedelta, bool, EInt, EStr, ESMix, EIntEnum, EColl, re.Pattern]
+            D.time, D.timedelta, bool, EInt, EStr, ESMix, EIntEnum, EColl, ECross, re.Pattern]
     pairs = [(a, b) for a in scal for b in scal if a is not b]
     rng.shuffle(pairs)
     for a, b in pairs[: run.budget(60, len(pairs))]:
